@@ -297,7 +297,12 @@ def _accidentals_on_all_names(ctx, exp, node, pp, cond, ne_atoms):
                 return ast.Constant(value=self.name)
             return self.generic_visit(n)
     n_ok = 0
-    for name in chromas:
+    # every name an AgnosticPitch can hold: the table, and every letter with a run of up to three sharps or flats (what the name
+    # setter accepts) - the table alone has no triple sharp
+    domain = list(chromas) + [l + a for l in 'ABCDEFG' for a in ('', '+', '++', '+++', '-', '--', '---') if l + a not in chromas]
+    from ..consteval import Instance
+    pitch_cls = ctx.prog.cls(f'{N.PITCH}.AgnosticPitch')
+    for name in domain:
         if not isinstance(name, str):
             return None
         want = ''.join('#' if c == '+' else '-' for c in name if c in '+-')
@@ -306,7 +311,9 @@ def _accidentals_on_all_names(ctx, exp, node, pp, cond, ne_atoms):
                 continue
             if F.forced(cond, ne_atoms[0], False) and want:
                 continue
-        ok, got = ctx.ce.try_eval(NameIs(name).visit(ast.parse(src(node), mode='eval').body), exp.module, exp.cls, {})
+        obj = Instance(pitch_cls)
+        obj.attrs['name'] = name
+        ok, got = ctx.ce.try_eval(NameIs(name).visit(ast.parse(src(node), mode='eval').body), exp.module, exp.cls, {pp: obj})
         if not ok:
             return None
         if got != want:
